@@ -851,7 +851,28 @@ func protocolFacts() {
 }
 
 // moreFacts collects the facts of the other properties (added per property).
+// newTermSyncFacts: both NewTerm handlers make everything appended visible (wal.Sync) before they read the
+// head entry they report
+func newTermSyncFacts() {
+	for _, x := range []struct{ file, recv, name, wal string }{
+		{"server/follower_controller.go", "followerController", "followerNewTermSyncsWalBeforeHead", "fc.wal"},
+		{"server/leader_controller.go", "leaderController", "leaderNewTermSyncsWalBeforeHead", "lc.wal"},
+	} {
+		f := parse(x.file)
+		fn := funcDecl(f, x.recv, "NewTerm")
+		b := ""
+		if fn != nil {
+			b = squash(src(fn.Body))
+		}
+		iSync := strings.Index(b, x.wal+".Sync(")
+		iHead := strings.Index(b, "getLastEntryIdInWal("+x.wal+")")
+		add(x.name, "Bool", boolLean(iSync >= 0 && iHead > iSync), x.file+": (*"+x.recv+").NewTerm",
+			"the WAL is synced (entries appended asynchronously become visible) before the head entry is read and reported")
+	}
+}
+
 func moreFacts() {
+	newTermSyncFacts()
 	walFacts()
 	codecFacts()
 	dbFacts()
